@@ -297,7 +297,7 @@ def finish(prop, tier, t0, obs, units_meta, trusted_base, assumptions, level_if_
     ev = {"property_id": prop, "tier": tier, "seed": seed, "level": level, "coverage": cov,
           "assumptions": assumptions, "wall_s": round(time.time() - t0, 1),
           "violations": len(violations)}
-    write(os.path.join(VERIF, "evidence", f"{prop}.json"), json.dumps(ev, indent=1))
+    write(os.path.join(os.environ.get("VERIF_EVIDENCE_DIR") or os.path.join(VERIF, "evidence"), f"{prop}.json"), json.dumps(ev, indent=1))
     log(f"[{prop}/{tier}] proof {n_proof_ok}/{n_proof}  bounded {n_bounded_ok}/{n_bounded}  "
         f"known-findings {len(known_printed)}  violations {len(violations)}  "
         f"undecided {len(undecided)}  wall {ev['wall_s']}s -> exit {rc}")
